@@ -1073,6 +1073,37 @@ def tag(expression: exp.Expression) -> exp.Expression:
     return expression
 
 
+def to_binary(expression: exp.Expression) -> exp.Expression:
+    """Convert to_binary(expr [, format]) to the duckdb function that decodes the format.
+
+    The format is HEX (the default), BASE64 or UTF-8.
+    See https://docs.snowflake.com/en/sql-reference/functions/to_binary
+    duckdb's own to_binary is unrelated: it returns the bits of a number as a string.
+
+    Example:
+        >>> import sqlglot
+        >>> sqlglot.parse_one("SELECT to_binary('414243', 'HEX')", read="snowflake").transform(to_binary).sql(dialect="duckdb")
+        "SELECT UNHEX('414243')"
+    """
+
+    if (
+        isinstance(expression, exp.Anonymous)
+        and isinstance(expression.this, str)
+        and expression.this.upper() == "TO_BINARY"
+        and 1 <= len(expression.expressions) <= 2
+    ):
+        value = expression.expressions[0]
+        fmt = expression.expressions[1].name.upper() if len(expression.expressions) == 2 else "HEX"
+        if fmt == "HEX":
+            return exp.Unhex(this=value)
+        elif fmt == "BASE64":
+            return exp.FromBase64(this=value)
+        elif fmt in ("UTF-8", "UTF8"):
+            return exp.Encode(this=value, charset=exp.Literal.string("utf-8"))
+
+    return expression
+
+
 def to_date(expression: exp.Expression) -> exp.Expression:
     """Convert to_date() to a cast.
 
